@@ -170,22 +170,26 @@ func (b *buffer) ReadFrom(r io.Reader) (n int64, err error) {
 
 	var wrote int64
 	if b.memBuf.hasSpace() {
-		wrote, err = b.memBuf.readFrom(r)
-		if err == io.EOF {
-			return wrote, nil
-		}
-		if err != nil {
-			return wrote, err
+		var memErr error
+		wrote, memErr = b.memBuf.readFrom(r)
+		srcDone := memErr != nil
+		if memErr == io.EOF {
+			memErr = nil
 		}
 		if b.memBuf.hasSpace() {
 			// All was written to memory buffer
-			return wrote, nil
+			return wrote, memErr
 		}
 
-		// we can't write to memory any more, switch to file
+		// we can't write to memory any more, switch to file.
+		// This must also happen when the source ended (or failed) exactly when the memory buffer became full:
+		// a later write goes to the file buffer.
 		var err error
 		if b.fileBuf, err = newFileBuffer(b.max-b.memBuf.cap(), b.opts.tmpDir); err != nil {
 			return wrote, err
+		}
+		if srcDone {
+			return wrote, memErr
 		}
 	}
 
